@@ -104,9 +104,10 @@ type call struct {
 }
 
 type env struct {
-	t      fataler
-	sv     *wire.Served
-	client *muc.Client
+	garbledLobby bool // the never-joined room has sent a presence with an undecodable payload
+	t            fataler
+	sv           *wire.Served
+	client       *muc.Client
 
 	mu       sync.Mutex
 	invites  []muc.Invitation
@@ -222,6 +223,9 @@ func (e *env) serveTrouble(why string) {
 		if err != nil && strings.Contains(err.Error(), "i/o timeout") {
 			e.inconclusive(why + ": session ended by a transport timeout")
 			return
+		}
+		if e.garbledLobby {
+			e.failf("%s: Serve returned (%v) although the peer never closed the stream; it sent well-formed MUC traffic and, from a room that was never joined (whose presences are to be ignored), presences with a muc#user payload the library cannot decode", why, err)
 		}
 		e.failf("%s: Serve returned (%v) although the peer only sent well-formed MUC traffic and never closed the stream", why, err)
 	default:
@@ -868,6 +872,11 @@ type presOpts struct {
 	aff     string
 	role    string
 	realJID bool
+	// garble (presences of the never-joined room only): the muc#user payload
+	// carries something this library's decoder refuses: "aff" an unknown
+	// affiliation, "role" an unknown role, "code" a status code that is not a
+	// number, "jid" a real JID that is not an address
+	garble string
 }
 
 func (e *env) userX(o presOpts, nick string) *xt.Node {
@@ -878,13 +887,25 @@ func (e *env) userX(o presOpts, nick string) *xt.Node {
 	if role == "" {
 		role = "participant"
 	}
+	switch o.garble {
+	case "aff":
+		aff = "superadmin"
+	case "role":
+		role = "ghost"
+	}
 	attrs := []xml.Attr{xt.A("affiliation", aff), xt.A("role", role)}
 	if o.realJID {
 		attrs = append(attrs, xt.A("jid", "someone@example.com/phone"))
 	}
+	if o.garble == "jid" {
+		attrs = append(attrs, xt.A("jid", "@@/"))
+	}
 	x := xt.El(muc.NSUser, "x", nil, xt.El(muc.NSUser, "item", attrs))
 	for _, c := range o.codes {
 		x.Children = append(x.Children, xt.El(muc.NSUser, "status", []xml.Attr{xt.A("code", strconv.Itoa(c))}))
+	}
+	if o.garble == "code" {
+		x.Children = append(x.Children, xt.El(muc.NSUser, "status", []xml.Attr{xt.A("code", "one-ten")}))
 	}
 	return x
 }
@@ -1095,8 +1116,12 @@ func (e *env) lobbyPresence(nick string, unavailable, self bool, o presOpts) boo
 		e.foreign = true
 	}
 	e.class("ev-never-joined-room")
-	e.logf("never-joined room sends: presence type=%q from %q self(110)=%v", typ, from, self)
-	e.can("lobby nick=%s unavail=%v self=%v l=%d", nick, unavailable, self, o.layout)
+	if o.garble != "" {
+		e.class("ev-never-joined-room-undecodable-payload")
+		e.garbledLobby = true
+	}
+	e.logf("never-joined room sends: presence type=%q from %q self(110)=%v; muc#user payload this library cannot decode: %q", typ, from, self, o.garble)
+	e.can("lobby nick=%s unavail=%v self=%v l=%d g=%s", nick, unavailable, self, o.layout, o.garble)
 	e.feed(e.presence(from, typ, o, e.userX(o, nick)))
 	return e.afterEvent(nil, "", e.lobby.String())
 }
